@@ -122,12 +122,16 @@ func (y *c30Sys) restore(sn c30Snap) {
 	y.ps.reservedNode = make(map[peer.ID]struct{})
 	now := time.Now()
 	// A fresh random bucket layout for the two maps the code iterates over (insertion order of the
-	// keys plus up to three holes left by deleted dummy keys, which later insertions of the op fill
+	// keys plus up to five holes left by deleted dummy keys, which later insertions of the op fill
 	// first): together with Go's random iteration start every iteration order that some history
 	// of the maps could produce is reachable by retrying.
-	layout := func() []int {
+	layout := func(present int) []int {
 		seq := []int{0, 1, 2, 3, 4}
-		for k := c30Shuffle.Intn(4); k > 0; k-- {
+		holes := 8 - present // the maps must stay within one bucket of eight slots
+		if holes > 5 {
+			holes = 5
+		}
+		for k := c30Shuffle.Intn(holes + 1); k > 0; k-- {
 			seq = append(seq, -k)
 		}
 		for i := len(seq) - 1; i > 0; i-- {
@@ -137,7 +141,16 @@ func (y *c30Sys) restore(sn c30Snap) {
 		return seq
 	}
 	dummy := func(k int) peer.ID { return peer.ID("dummy" + strconv.Itoa(-k)) }
-	for _, i := range layout() {
+	nNodes, nRes := 0, 0
+	for i := range c30IDs {
+		if sn.nodes[i].has {
+			nNodes++
+		}
+		if sn.reserved[i] {
+			nRes++
+		}
+	}
+	for _, i := range layout(nNodes) {
 		if i < 0 {
 			st.nodes[dummy(i)] = nil
 			continue
@@ -150,7 +163,7 @@ func (y *c30Sys) restore(sn c30Snap) {
 			}
 		}
 	}
-	for _, i := range layout() {
+	for _, i := range layout(nRes) {
 		if i < 0 {
 			y.ps.reservedNode[dummy(i)] = struct{}{}
 			continue
@@ -159,7 +172,7 @@ func (y *c30Sys) restore(sn c30Snap) {
 			y.ps.reservedNode[c30IDs[i]] = struct{}{}
 		}
 	}
-	for k := 1; k <= 3; k++ {
+	for k := 1; k <= 5; k++ {
 		delete(st.nodes, dummy(-k))
 		delete(y.ps.reservedNode, dummy(-k))
 	}
